@@ -33,6 +33,16 @@ OBLIGATIONS = [
      "statement": "a kept connection's response was completed by frameResponse without surplus (never by peer close)"},
     {"id": "C17_R4c", "theorem": "Iora.C17.R4_sequences", "kind": "proved",
      "statement": "every sequence of requests: no session used after close; <=1 cached connection per host:port; cached sessions never closed; no lease left held"},
+    {"id": "C17_R4d", "theorem": "Iora.C17.R4_one_lease_holder", "kind": "proved",
+     "statement": "concurrent callers, every schedule: per host:port, threads inside an exchange = lease entries <= 1"},
+    {"id": "C17_R4e", "theorem": "Iora.C17.R4_concurrent_trace", "kind": "proved",
+     "statement": "concurrent callers, every schedule: no session used after close; cache invariant"},
+    {"id": "C17_R123c", "theorem": "Iora.C17.R123_concurrent", "kind": "proved",
+     "statement": "concurrent callers, every schedule: every thread obeys the retry discipline (R1/R2/R3) at every moment"},
+    {"id": "C17_R1c", "theorem": "Iora.C17.R1_concurrent_reading", "kind": "proved",
+     "statement": "a finished non-idempotent caller: <= budget+1 attempts, all but the last not sent, at most one reached sendSync"},
+    {"id": "C17_R4f", "theorem": "Iora.C17.R4_no_deadlock", "kind": "proved",
+     "statement": "concurrent callers, every schedule: while a caller is unfinished some thread can make a working step (lease never strands callers)"},
     {"id": "C17_R5", "theorem": "Iora.C17.R5_exact", "kind": "proved",
      "statement": "isIdempotentMethod = exact membership in {GET,HEAD,PUT,DELETE,OPTIONS,TRACE}"},
     {"id": "C17_R5_case", "theorem": "Iora.C17.R5_case_sensitive", "kind": "proved",
@@ -44,7 +54,7 @@ OBLIGATIONS = [
     {"id": "C17_R6_silence", "theorem": "Iora.C17.R6_silence_ends_attempt", "kind": "proved",
      "statement": "a silent peer ends the attempt with an error at that receive"},
 ]
-LEANCHECK = MODULES + ["IoraModel.Lemmas.HttpRetry", "IoraModel.Lemmas.HttpRetryCache", "IoraModel.Model.HttpRetry"]
+LEANCHECK = MODULES + ["IoraModel.Lemmas.HttpRetry", "IoraModel.Lemmas.HttpRetryCache", "IoraModel.Lemmas.HttpLease", "IoraModel.Model.HttpRetry", "IoraModel.Model.HttpLease"]
 ANCHOR_FILES = ["include/iora/network/http_client.hpp", "include/iora/network/transport_impl.hpp"]
 HERE = os.path.dirname(os.path.dirname(os.path.abspath(__file__)))
 
@@ -214,7 +224,7 @@ def rand_close_delimited(rng, tag, method):
 
 def rand_fault(rng, cls, tag, method, seq, body_len, reuse_cfg):
     total, fields = request_fields(method, seq, body_len, reuse_cfg)
-    if cls in "LRBME":
+    if cls in "LRBMES":
         return tok_client(cls)
     if cls in "TC":
         on_request = rng.chance(1, 2)
@@ -272,7 +282,7 @@ def gen_random(rng, seq, n_cases):
             budget = rng.choice([0, 1, 1, 2, 2, 3, 3, -1, 5])
             host = 1 if rng.chance(1, 6) else 0
             url_kind = 9 if rng.chance(1, 40) else host
-            body_len = rng.choice([0, 0, 5, 300]) if method not in ("GET", "HEAD") else 0
+            body_len = rng.choice([0, 0, 5, 300, 300, 70000]) if method not in ("GET", "HEAD") else 0
             toks = []
             for ai in range(max(budget, 0) + 2):
                 tag = ("c%dr%da%d" % (ci, ri, ai)).encode()
@@ -284,7 +294,7 @@ def gen_random(rng, seq, n_cases):
                 elif roll < 44 and cap:
                     t = tok_cap(rng, tag, cap)
                 else:
-                    t = rand_fault(rng, rng.choice(list("LRBMETTTCCCCFFV")), tag, method, s, body_len, reuse_cfg)
+                    t = rand_fault(rng, rng.choice(list("LRBMESTTTCCCCFFV")), tag, method, s, body_len, reuse_cfg)
                 if rng.chance(1, 25):
                     t = "I" + t
                 toks.append(t)
@@ -671,6 +681,13 @@ def monitor_case(c, impl, consts):
                 bad.append("R6: attempt %d lasted %d ms of client time with requestTimeout %d ms" % (i, v, REQUEST_TIMEOUT_MS))
         if realtime and int(f.get("rms", "0")) > 10 * REQUEST_TIMEOUT_MS * max(att, 1):
             bad.append("R6: %d attempt(s) took %s ms of real time with requestTimeout %d ms" % (att, f.get("rms"), REQUEST_TIMEOUT_MS))
+        # R6 (deterministic part): no single wait is longer than the configured time-outs, and a wait that timed out is not repeated
+        limit = max(REQUEST_TIMEOUT_MS, consts["localConnectCapMs"], 50)
+        if int(f.get("maxwait", "0")) > limit + 1:
+            bad.append("R6: the requesting thread asked for a %s ms wait; configured: requestTimeout %d ms, connect %d ms, lease 50 ms" % (f.get("maxwait"), REQUEST_TIMEOUT_MS, consts["localConnectCapMs"]))
+        silent = sum(1 for a in script[:att] if a.cls in "TLB")
+        if int(f.get("tow", "0")) > silent and c["cat"] != "racy":
+            bad.append("R6: %s waits ended by time-out but the peer was silent in only %d attempt(s): the client waited for something that could not come (or waited again after a time-out)" % (f.get("tow"), silent))
         # a response is attributed to the request it answers
         if f["res"].startswith("ok:") and last is not None and last.xbody is not None and c["cat"] != "racy":
             if f.get("body") != last.xbody:
@@ -689,7 +706,7 @@ def monitor_case(c, impl, consts):
 
 def gen_consts():
     p = os.path.join(os.environ.get("VERIF_LEAN", os.path.join(HERE, "lean")), "IoraModel", "Gen", "HttpRetry.lean")
-    out = {"backoffBaseMs": 100, "jitterLo": 0, "jitterHi": 99}
+    out = {"backoffBaseMs": 100, "jitterLo": 0, "jitterHi": 99, "localConnectCapMs": 200}
     try:
         t = open(p).read()
         for k in out:
@@ -780,7 +797,7 @@ def run(ctx: Ctx):
     ctx.extra["repo_tree_sha"] = ctx.repo_tree_sha(ANCHOR_FILES)
     ctx.extra["not_proved"] = [
         "R6 wall-clock part (each attempt ends within its configured timeout): measured by the harness (virtual client time per attempt, plus real-time cases), not a theorem",
-        "R4 'at most one lease holder at a time' under concurrent callers: the sequential model proves no lease is left held; concurrent schedules are not modelled here",
+        "the condition-variable hand-off inside acquireLease/releaseLease (no lost wake-up) is not modelled: blocking is 'enabled iff the host is free'; that the erase is under _mutex and the notify is notify_all is a translator check, and concurrent runs would hang into the harness watchdog",
         "responseRequestsClose = RFC 7230 token-list semantics: the model mirrors the index loop; agreement with the RFC reading is checked differentially against an independent Python reference, not proved",
     ]
     ctx.assumptions += [
@@ -789,6 +806,7 @@ def run(ctx: Ctx):
         "'surplus bytes' are bytes beyond the framed message that have been received when frameResponse completes; the generator sends them in the same segment as the message they follow",
         "the engine hands out strictly increasing session ids (TcpEngine::_nextSessionId); the harness numbers sessions by creation order",
         "RST at accept races with connectSync's completion; those cases are judged by the monitors only (category `racy`)",
+        "concurrent callers: an exchange (everything under the lease) is one atomic step of the model — exchanges of different hosts touch different keys of _connections under _mutex and commute up to the numbering of sessions; cleanup() during requests is excluded by its documented precondition",
     ]
     return ctx.finish(level="proof", rule="a case = reset + a sequence of logical requests (method, budget, per-attempt fault script) against the scripted loopback server; "
                       "distinct = distinct op lists; every case reaches the retry loop, so all are non-trivial; `exchanges` counts attempts")
